@@ -54,6 +54,7 @@ private:
   std::queue<long long int> periods_;
   long long int periodsSum_;
   std::atomic<double> rate_;
+  std::atomic<bool> hasData_;
 };
 
 }  // namespace core
